@@ -136,10 +136,84 @@ SPEC_VARNUM = [  # (max value, marker byte, payload width, total size)   NDN pac
     (0xFC, None, 1, 1), (0xFFFF, 0xFD, 2, 3), (0xFFFFFFFF, 0xFE, 4, 5), (None, 0xFF, 8, 9)]
 
 
-def varnum_tables(P):
+def varnum_tables(P, names=None):
     out = {}
-    for f in VARNUM_FUNCS:
+    for f in (names or VARNUM_FUNCS):
         out[f] = table_of(P, 'ndn.encoding.tlv_var.' + f, 4)
+    return out
+
+
+def eval_size_fn(tab, v):
+    """value of get_tl_num_size(v) according to the extracted table of the repository's own function"""
+    for r in tab['rows']:
+        c = r['cond']
+        if c[0] == 'else' or (c[0] == '<=' and v <= c[1]) or (c[0] == '==' and v == c[1]) or (c[0] == '>=' and v >= c[1]):
+            return r['facts']['ret']
+    return None
+
+
+def stream_read_profile(P):
+    """fallback when read_tl_num_from_stream is not an if/elif chain: execute it for one representative first octet per
+    VAR-NUMBER class and add up the bytes requested from the stream. -> {first_octet: total bytes read}"""
+    F = P.func('ndn.encoding.tlv_var.read_tl_num_from_stream')
+    size_tab = table_of(P, 'ndn.encoding.tlv_var.get_tl_num_size', 4)
+    out = {}
+    for first in (0x10, 0xFD, 0xFE, 0xFF):
+        env = {}
+        total = [0]
+        nreads = [0]
+
+        def ev(e):
+            if isinstance(e, ast.Constant) and isinstance(e.value, int):
+                return e.value
+            if isinstance(e, ast.Name) and e.id in env:
+                return env[e.id]
+            if isinstance(e, ast.BinOp) and isinstance(e.op, (ast.Add, ast.Sub, ast.Mult)):
+                a, b = ev(e.left), ev(e.right)
+                if a is None or b is None:
+                    return None
+                return a + b if isinstance(e.op, ast.Add) else a - b if isinstance(e.op, ast.Sub) else a * b
+            if isinstance(e, ast.Call) and ast.unparse(e.func).split('.')[-1] == 'get_tl_num_size' and e.args:
+                a = ev(e.args[0])
+                return None if a is None else eval_size_fn(size_tab, a)
+            if isinstance(e, ast.Subscript) and isinstance(e.slice, ast.Constant) and e.slice.value == 0 and nreads[0] == 1:
+                return first        # the first octet read from the stream
+            if isinstance(e, ast.Compare) and len(e.ops) == 1:
+                a, b = ev(e.left), ev(e.comparators[0])
+                if a is None or b is None:
+                    return None
+                op = e.ops[0]
+                return {ast.LtE: a <= b, ast.Lt: a < b, ast.Eq: a == b, ast.NotEq: a != b, ast.Gt: a > b, ast.GtE: a >= b}.get(type(op))
+            return None
+
+        def run(stmts):
+            for s in stmts:
+                for x in ast.walk(s):
+                    if isinstance(x, ast.Call) and isinstance(x.func, ast.Attribute) and x.func.attr == 'readexactly' and not isinstance(s, ast.If):
+                        n = ev(x.args[0]) if x.args else None
+                        if n is None:
+                            raise AnalysisError('read_tl_num_from_stream: cannot evaluate the size of a stream read')
+                        total[0] += n
+                        nreads[0] += 1
+                if isinstance(s, ast.Assign) and len(s.targets) == 1 and isinstance(s.targets[0], ast.Name):
+                    v = ev(s.value)
+                    if v is not None:
+                        env[s.targets[0].id] = v
+                    else:
+                        env.pop(s.targets[0].id, None)
+                elif isinstance(s, ast.If):
+                    c = ev(s.test)
+                    if c is None:
+                        raise AnalysisError(f'read_tl_num_from_stream: cannot evaluate `{ast.unparse(s.test)}` for first octet {first:#x}')
+                    if run(s.body if c else s.orelse):
+                        return True
+                elif isinstance(s, ast.Return):
+                    return True
+                elif isinstance(s, (ast.For, ast.While, ast.Try, ast.With)):
+                    raise AnalysisError('read_tl_num_from_stream: unsupported statement in the fallback executor')
+            return False
+        run(F.node.body)
+        out[first] = total[0]
     return out
 
 
